@@ -238,4 +238,152 @@ Section BODY.
     rewrite <- (app_nil_r (op_bytes OEndchar)).
     apply go_oper_done with (p := pst_of st) (s := w); [repeat split; assumption|exact Hd].
   Qed.
+
+  Lemma adv_stems : forall cs p, p_hs (adv p cs) = p_hs p /\ p_vs (adv p cs) = p_vs p /\ p_width (adv p cs) = p_width p.
+  Proof.
+    induction cs as [|c t IH]; intros p; [repeat split|].
+    unfold adv in *. cbn [fold_left]. destruct (IH (app_draw p c)) as (H1 & H2 & H3).
+    rewrite H1, H2, H3. destruct c; repeat split.
+  Qed.
+
+  (* every body encodePaths can emit, started on an empty stack *)
+  Lemma body_exec ecs body :
+    paths_code ecs body -> run_wf ecs ->
+    forall st p, at_stk st p [] -> body_wf (nstems p) (p_moved p) ecs = true ->
+    exists st', go st body = RDone st' /\
+      cmds st' = p_cmds (sem p ecs) /\ hs st' = p_hs p /\ vs st' = p_vs p /\ width st' = p_width p.
+  Proof.
+    intros H. induction H as [|dx dy t code Hp IH|k bs t code Hp IH|cs run rest c1 c2 Htr Hne Hsub Hp IH];
+      intros Hwf st p Hat Hb.
+    - destruct (endchar_exec st p [] Hat (or_introl eq_refl)) as (st' & Hg & H1 & H2 & H3 & H4).
+      exists st'. repeat split; assumption.
+    - inversion Hwf as [|? ? Hw1 Hw2]; subst. cbn [cmd_enums] in Hw1.
+      inversion Hw1 as [|? ? Hwx Hw1']; subst. inversion Hw1' as [|? ? Hwy _]; subst.
+      destruct (move_exec st p dx dy code [] Hwx Hwy Hat (or_introl eq_refl)) as (st1 & Hg1 & Hat1).
+      cbn [body_wf] in Hb.
+      destruct (IH Hw2 st1 _ Hat1 Hb) as (st' & Hg & H1 & H2 & H3 & H4).
+      exists st'. split; [rewrite Hg1; exact Hg|]. repeat split; assumption.
+    - inversion Hwf as [|? ? _ Hw2]; subst.
+      cbn [body_wf] in Hb. apply andb_true_iff in Hb. destruct Hb as [Hb Hb2].
+      apply andb_true_iff in Hb. destruct Hb as [Hns Hlen].
+      apply Nat.leb_le in Hns. apply Nat.eqb_eq in Hlen. unfold nstems in *.
+      destruct (mask_exec st p k bs code [] []) as (st1 & Hg1 & Hat1).
+      + exact Hat.
+      + left; reflexivity.
+      + reflexivity.
+      + congruence.
+      + cbn. unfold t2_max_stack. lia.
+      + cbn [stem_edges]. rewrite app_nil_r.
+        destruct (Nat.lt_ge_cases (length (p_hs p) + length (p_vs p)) 2) as [Hlt|Hge]; [|exact Hge].
+        rewrite (Nat.div_small _ 2 Hlt) in Hns. lia.
+      + cbn [stem_edges]. rewrite app_nil_r. exact Hlen.
+      + cbn [stem_edges] in Hat1. rewrite app_nil_r in Hat1.
+        destruct (IH Hw2 st1 _ Hat1 Hb2) as (st' & Hg & H1 & H2 & H3 & H4).
+        exists st'. split; [rewrite Hg1; exact Hg|]. repeat split; assumption.
+    - destruct (take_run_spec _ _ _ Htr) as [Hcs Hd]. subst cs.
+      apply run_wf_app in Hwf. destruct Hwf as [Hwr Hwrest].
+      destruct (body_wf_run run _ _ rest Hd Hne Hb) as [Hm Hb2].
+      assert (Hsub' : exists st1, go st (c1 ++ c2) = go st1 c2 /\ at_stk st1 (adv p (skipn 0 run)) []).
+      { apply (subpath_exec subrs gsubrs call run Hwr 0%nat c1 Hsub); [lia|exact Hat|exact Hm]. }
+      destruct Hsub' as (st1 & Hg1 & Hat1). cbn [skipn] in Hat1.
+      destruct (adv_stems run p) as (Eh & Ev & Ew).
+      assert (Hb3 : body_wf (nstems (adv p run)) (p_moved (adv p run)) rest = true).
+      { unfold nstems. rewrite Eh, Ev, adv_moved. exact Hb2. }
+      destruct (IH Hwrest st1 _ Hat1 Hb3) as (st' & Hg & H1 & H2 & H3 & H4).
+      exists st'. split; [rewrite Hg1; exact Hg|].
+      rewrite sem_app, (sem_draws run p Hd). rewrite Eh in H2. rewrite Ev in H3. rewrite Ew in H4.
+      repeat split; assumption.
+  Qed.
 End BODY.
+
+(* ------------------------------------------------------------------ *)
+(* encodeArgs is exact                                                 *)
+
+(* the same well-formedness, on the glyph's own command list *)
+Fixpoint cmds_wf (ns : nat) (m : bool) (cs : list cmd) : bool :=
+  match cs with
+  | [] => true
+  | CMove _ _ :: t => cmds_wf ns true t
+  | CHint bs :: t | CCntr bs :: t => (1 <=? ns)%nat && (length bs =? (ns + 7) / 8)%nat && cmds_wf ns m t
+  | _ :: t => m && cmds_wf ns m t
+  end.
+
+Lemma obind_some {A B} (x : option A) (f : A -> option B) y :
+  obind x f = Some y -> exists a, x = Some a /\ f a = Some y.
+Proof. destruct x; cbn; [eauto|discriminate]. Qed.
+
+Lemma enc_args_sound : forall cs px py ecs,
+  enc_args px py cs = Some ecs ->
+  run_wf ecs /\
+  (forall ns m, body_wf ns m ecs = cmds_wf ns m cs) /\
+  (forall p, p_px p = px -> p_py p = py -> p_cmds (sem p ecs) = p_cmds p ++ cs).
+Proof.
+  induction cs as [|c t IH]; intros px py ecs H.
+  - cbn in H. inversion H; subst. repeat split; [constructor|]. intros. cbn. rewrite app_nil_r. reflexivity.
+  - destruct c as [x y|x y|x1 y1 x2 y2 x3 y3|bs|bs]; cbn [enc_args] in H.
+    + apply obind_some in H. destruct H as (dx & Hdx & H).
+      apply obind_some in H. destruct H as (dy & Hdy & H).
+      apply obind_some in H. destruct H as (r & Hr & H). inversion H; subst.
+      apply enc_number_some in Hdx. destruct Hdx as (Ex & Wx & _).
+      apply enc_number_some in Hdy. destruct Hdy as (Ey & Wy & _).
+      destruct (IH _ _ _ Hr) as (Hw & Hb & Hs).
+      repeat split.
+      * constructor; [repeat constructor; assumption|exact Hw].
+      * intros. cbn [body_wf cmds_wf]. apply Hb.
+      * intros p Hpx Hpy. unfold sem. cbn [fold_left app_ecmd].
+        change (fold_left app_ecmd r ?q) with (sem q r).
+        rewrite Hs by (cbn [p_move p_px p_py]; lia).
+        cbn [p_move p_cmds]. rewrite <- app_assoc. cbn [app]. repeat f_equal; lia.
+    + apply obind_some in H. destruct H as (dx & Hdx & H).
+      apply obind_some in H. destruct H as (dy & Hdy & H).
+      apply obind_some in H. destruct H as (r & Hr & H). inversion H; subst.
+      apply enc_number_some in Hdx. destruct Hdx as (Ex & Wx & _).
+      apply enc_number_some in Hdy. destruct Hdy as (Ey & Wy & _).
+      destruct (IH _ _ _ Hr) as (Hw & Hb & Hs).
+      repeat split.
+      * constructor; [repeat constructor; assumption|exact Hw].
+      * intros. cbn [body_wf cmds_wf]. rewrite Hb. reflexivity.
+      * intros p Hpx Hpy. unfold sem. cbn [fold_left app_ecmd app_draw].
+        change (fold_left app_ecmd r ?q) with (sem q r).
+        rewrite Hs by (cbn [p_line p_px p_py]; lia).
+        cbn [p_line p_cmds]. rewrite <- app_assoc. cbn [app]. repeat f_equal; lia.
+    + apply obind_some in H. destruct H as (dax & Hdax & H).
+      apply obind_some in H. destruct H as (day & Hday & H).
+      apply obind_some in H. destruct H as (dbx & Hdbx & H).
+      apply obind_some in H. destruct H as (dby & Hdby & H).
+      apply obind_some in H. destruct H as (dcx & Hdcx & H).
+      apply obind_some in H. destruct H as (dcy & Hdcy & H).
+      apply obind_some in H. destruct H as (r & Hr & H). inversion H; subst.
+      apply enc_number_some in Hdax. destruct Hdax as (E1 & W1 & _).
+      apply enc_number_some in Hday. destruct Hday as (E2 & W2 & _).
+      apply enc_number_some in Hdbx. destruct Hdbx as (E3 & W3 & _).
+      apply enc_number_some in Hdby. destruct Hdby as (E4 & W4 & _).
+      apply enc_number_some in Hdcx. destruct Hdcx as (E5 & W5 & _).
+      apply enc_number_some in Hdcy. destruct Hdcy as (E6 & W6 & _).
+      destruct (IH _ _ _ Hr) as (Hw & Hb & Hs).
+      repeat split.
+      * constructor; [repeat constructor; assumption|exact Hw].
+      * intros. cbn [body_wf cmds_wf]. rewrite Hb. reflexivity.
+      * intros p Hpx Hpy. unfold sem. cbn [fold_left app_ecmd app_draw].
+        change (fold_left app_ecmd r ?q) with (sem q r).
+        rewrite Hs by (cbn [p_curve p_px p_py]; lia).
+        cbn [p_curve p_cmds]. rewrite <- app_assoc. cbn [app]. repeat f_equal; lia.
+    + apply obind_some in H. destruct H as (r & Hr & H). inversion H; subst.
+      destruct (IH _ _ _ Hr) as (Hw & Hb & Hs).
+      repeat split.
+      * constructor; [constructor|exact Hw].
+      * intros. cbn [body_wf cmds_wf]. rewrite Hb. reflexivity.
+      * intros p Hpx Hpy. unfold sem. cbn [fold_left app_ecmd].
+        change (fold_left app_ecmd r ?q) with (sem q r).
+        rewrite Hs by (cbn [p_mask p_px p_py]; assumption).
+        cbn [p_mask p_cmds]. rewrite <- app_assoc. reflexivity.
+    + apply obind_some in H. destruct H as (r & Hr & H). inversion H; subst.
+      destruct (IH _ _ _ Hr) as (Hw & Hb & Hs).
+      repeat split.
+      * constructor; [constructor|exact Hw].
+      * intros. cbn [body_wf cmds_wf]. rewrite Hb. reflexivity.
+      * intros p Hpx Hpy. unfold sem. cbn [fold_left app_ecmd].
+        change (fold_left app_ecmd r ?q) with (sem q r).
+        rewrite Hs by (cbn [p_mask p_px p_py]; assumption).
+        cbn [p_mask p_cmds]. rewrite <- app_assoc. reflexivity.
+Qed.
